@@ -150,3 +150,17 @@ NOT_APPLICABLE = {p: "check under construction in this session; will be claimed 
 
 NOTES = ("One engine: Lean 4 model + theorems, regenerated facts (T1/T2), co-simulation (T3). ./check <id> quick|thorough; ./check replay <path>. "
          "known-findings.json lists genuine defects that are recorded rather than repaired.")
+
+# ---- additions after the fifth round of seeded changes ----
+TEXTS["C04"]["text"] += ("Monitor added: a delivery whose announcement is OLDER than the record the store answered with must end in an acknowledgement when nothing was injected and no function ran "
+                         "(older-announcement-not-acknowledged; e.g. a stale event of a run whose data was erased). ")
+TEXTS["C07"]["text"] += ("Receiver-closed clause on the implementation: a process that is back at the role scheduler with a receiver it opened still open is flagged (receiver-left-open), as is any receiver not closed at Stop; "
+                         "sim-roleloss adds role loss INSIDE hook/delete functions and acknowledgements that ignore a cancelled context (model: Outcome.lost, Env.ackIgn; Pres.ack' covers both kinds of acknowledgement). ")
+TEXTS["C09"]["text"] += ("'Latest = newest created run' is the contract theorem of RefStore (C17); the in-memory and the SQL store are tied to it under C09 too (mem-recordstore, sql-recordstore): "
+                         "a Latest answer that names another run or another run state than the reference is reported as a C09 violation with the operation sequence as replay. ")
+TEXTS["C11"]["text"] += ("live-supervise also has 2-16 goroutines call Run at the same moment on workflows of 9-323 processes: every caller's Run must return with all processes registered and Stop must then reach all of them "
+                         "(also under the race detector); sim-roleloss co-simulates role loss in the middle of a hook or delete function. ")
+TEXTS["C14"]["text"] += ("Added theorem C14_failed_hook_never_acked: whatever made the hook fail - its own error or the loss of the role while it ran (Outcome.lost) - and whether or not the streamer's acknowledgement looks at the "
+                         "cancelled context (Env.ackIgn), the cursor stays; suite sim-roleloss co-simulates exactly these executions and checks at quiescence that every hooked entry had a successful invocation. ")
+TEXTS["C15"]["text"] += ("Monitor added at quiescence: after a fault-free drain no run may still be RequestedDataDeleted (delete-request-never-executed; the simulated streamer never loses events); "
+                         "sim-roleloss adds delete functions that fail while the delete consumer loses its role. ")
